@@ -1,6 +1,7 @@
 package main
 
 import (
+	"go/ast"
 	"fmt"
 	"go/token"
 	"go/types"
@@ -16,6 +17,21 @@ func (fr *Frame) exec(ins ssa.Instruction) bool {
 	_ = innerSize
 	switch n := ins.(type) {
 	case *ssa.DebugRef:
+		// x/tools v0.29 records `v := T{}` (map / slice literal) as "v is nil" followed by an anonymous
+		// reference for the literal itself: give the name to the literal's value
+		if n.Object() == nil && fr.pendingLit != "" {
+			if _, isLit := n.Expr.(*ast.CompositeLit); isLit {
+				if v, ok := fr.tryVal(n.X); ok && v.t != nil {
+					v.typ = n.X.Type()
+					if fr.localVars == nil {
+						fr.localVars = map[string]Val{}
+					}
+					fr.localVars[fr.pendingLit] = v
+				}
+			}
+			fr.pendingLit = ""
+			return false
+		}
 		// source-level names of locals become available to loop invariants and step clauses
 		if obj, ok := n.Object().(*types.Var); ok && obj != nil && !obj.IsField() && obj.Pkg() != nil && obj.Parent() != obj.Pkg().Scope() {
 			if _, isParam := fr.vars[obj.Name()]; isParam && fr.isParamName(obj.Name()) {
@@ -33,6 +49,9 @@ func (fr *Frame) exec(ins ssa.Instruction) bool {
 					// the variable lives in an allocation (its address is taken): keep naming the cell, not this value
 				} else {
 					v.typ = n.X.Type()
+					if c, isConst := n.X.(*ssa.Const); isConst && c.Value == nil {
+						fr.pendingLit = obj.Name()
+					}
 					fr.localVars[obj.Name()] = v
 				}
 			}
